@@ -13,19 +13,26 @@ import sys
 import numpy as np
 
 from c04 import bf, fb, parse_c, precision
+from c04 import gt, nan_selftest
 from common import Ctx, LeanDriver, Property, err_kind, list_s, listlist_s, parse_list, parse_listlist, run_property
 
 
 def gen_case(ctx: Ctx, kind=None):
     rng = ctx.rng
-    kind = kind or rng.choice(["roundtrip", "roundtrip", "roundtrip-real", "roundtrip-real", "mean", "intensity", "roll", "shift-add", "downsample"])
+    kind = kind or rng.choice(["roundtrip", "roundtrip", "roundtrip-real", "roundtrip-real", "mean", "intensity", "roll", "shift-add", "downsample", "downsample-default"])
     nd = rng.choice([1, 2, 2, 2, 3])
     shape = [rng.randint(1, 12) for _ in range(nd)]
     big = [s + rng.randint(0, 9) for s in shape]
     if rng.random() < 0.25:  # mixed: up in some axes, down in others
         big = [max(1, s + rng.randint(-4, 6)) for s in shape]
     ens = [] if rng.random() < 0.6 else [rng.randint(1, 3)]
-    return dict(kind=kind, shape=shape, big=big, ens=ens, seed=rng.randint(0, 10 ** 6),
+    extra = {}
+    if kind == "downsample-default":
+        sx = round(rng.uniform(0.05, 0.2), 3)
+        extra = dict(gpts=[rng.choice([rng.randint(6, 32), 16, 22, 28, 15, 12])] * 1 + [rng.randint(6, 32)],
+                     sampling=[sx, rng.choice([sx, round(rng.uniform(0.05, 0.2), 3)])], max_angle=rng.choice(["cutoff", "cutoff", "cutoff", "full"]),
+                     lazy=rng.random() < 0.3)
+    return dict(extra, kind=kind, shape=shape, big=big, ens=ens, seed=rng.randint(0, 10 ** 6),
                 precision=rng.choice(["float64", "float64", "float32"]), norm=rng.choice(["values", "amplitude", "intensity"]))
 
 
@@ -59,7 +66,7 @@ class C15(Property):
 
     # ------------------------------------------------------------------ correspondence
     def correspondence(self, ctx: Ctx):
-        from abtem.core.fft import _fft_interpolation_masks_1d, fft_crop, fft_shift_kernel
+        from abtem.core.fft import _fft_crop_fold, _fft_interpolation_masks_1d, fft_crop, fft_shift_kernel
 
         rng = ctx.rng
         drv = LeanDriver(self.drive_file)
@@ -83,6 +90,14 @@ class C15(Property):
                 impl = "err " + err_kind(e)
             checks.append(("fft_crop (1-D)", dict(n1=n1, n2=n2), len(lines), impl, "exact"))
             lines.append(f"crop1d {n2} {list_s(x.tolist())}")
+            if n1 >= 1 and n2 >= 1:
+                try:
+                    out = _fft_crop_fold(x.copy(), (n2,), (0,))
+                    impl = "ok " + list_s([int(v) for v in out])
+                except Exception as e:  # noqa
+                    impl = "err " + err_kind(e)
+                checks.append(("_fft_crop_fold (1-D, real-input path)", dict(n1=n1, n2=n2), len(lines), impl, "exact"))
+                lines.append(f"cropfold1d {n2} {list_s(x.tolist())}")
             ctx.count("masks:" + ("up" if n2 > n1 else "same" if n1 == n2 else "down") + (":small-odd" if min(n1, n2) % 2 else ":small-even"))
             ctx.case(dict(n1=n1, n2=n2), nontrivial=n1 != n2)
         for _ in range(ctx.n(60, 600)):
@@ -165,7 +180,7 @@ class C15(Property):
                 even_grown = [shape[i] for i in even_axes]
                 if kind == "roundtrip-real" and not np.isrealobj(np.asarray(y)):
                     ctx.violation("real-input-interpolation-returns-complex", case, dict(dtype=str(np.asarray(y).dtype)))
-                if err > tol:
+                if gt(err, tol):
                     if kind == "roundtrip":
                         ctx.violation("complex-up-down-roundtrip-not-identity", case, dict(rel_err=err, up_shape=list(up_shape)))
                     elif even_axes:
@@ -189,7 +204,7 @@ class C15(Property):
                     ctx.violation("real-input-interpolation-returns-complex", case, dict(dtype=str(y.dtype)))
                 ax = tuple(range(len(ens), len(ens) + len(shape)))
                 d = float(np.abs(y.mean(axis=ax) - x.mean(axis=ax)).max() / max(float(np.abs(x.mean(axis=ax)).max()), 1e-12))
-                if d > tol * 10:
+                if gt(d, tol * 10):
                     ctx.violation("values-normalization-changes-the-mean", case, dict(rel_dev=d))
                 ctx.count(f"mean:{len(shape)}d:{'real' if is_real else 'complex'}")
             elif kind == "intensity":
@@ -202,7 +217,7 @@ class C15(Property):
                 ty = (np.abs(np.fft.fftn(y, axes=ax)) ** 2).sum(axis=ax)
                 d = float(np.abs(ty / tx - 1).max())
                 even_axes = [i for i, (s, u) in enumerate(zip(shape, up_shape)) if s % 2 == 0 and u > s]
-                if d > tol * 10:
+                if gt(d, tol * 10):
                     if is_real and even_axes:
                         # same defect as F16 seen through the norm: `.real` splits every Nyquist coefficient into two halves,
                         # |X|² -> 2·|X/2|²; known only if the loss is exactly that
@@ -214,32 +229,92 @@ class C15(Property):
                         ctx.violation(key, case, dict(rel_dev=d, dev_from_prediction=dev, even_axes=[shape[i] for i in even_axes]))
                     else:
                         ctx.violation("intensity-normalization-changes-reciprocal-norm-on-upsampling", case, dict(rel_dev=d, real=is_real))
-                # downsampling the (band-limited) upsampled array back keeps it too
-                z = np.asarray(fft_interpolate(y.astype(cdt), shape, normalization="intensity"), dtype=np.complex128)
+                # downsampling the (band-limited) upsampled array back: complex input keeps Σ|F|² of the upsampled array; real input
+                # (fold of the ±Nyquist halves) returns to Σ|F|² of the ORIGINAL array
+                if is_real:
+                    z = np.asarray(fft_interpolate(np.ascontiguousarray(y.real).astype(rdt), shape, normalization="intensity"), dtype=np.complex128)
+                    ref = tx
+                else:
+                    z = np.asarray(fft_interpolate(y.astype(cdt), shape, normalization="intensity"), dtype=np.complex128)
+                    ref = ty
                 tz = (np.abs(np.fft.fftn(z, axes=ax)) ** 2).sum(axis=ax)
-                d2 = float(np.abs(tz / ty - 1).max())
-                if d2 > tol * 10 and not (is_real and even_axes):  # (real + even axis: the symmetric Nyquist pair is cropped one-sidedly, F16)
-                    ctx.violation("intensity-normalization-changes-reciprocal-norm-of-bandlimited-array-on-downsampling", case, dict(rel_dev=d2))
+                d2 = float(np.abs(tz / ref - 1).max())
+                if gt(d2, tol * 10):
+                    ctx.violation("intensity-normalization-changes-reciprocal-norm-of-bandlimited-array-on-downsampling", case, dict(rel_dev=d2, real=is_real))
                 ctx.count(f"intensity:{len(shape)}d:{'real' if is_real else 'complex'}")
             elif kind in ("roll", "shift-add"):
                 g = tuple((list(shape) + [5, 5])[:2])
                 x = (rng.normal(size=ens + g) + 1j * rng.normal(size=ens + g)).astype(cdt)
+                real_in = rng.random() < 0.35
+                if real_in:  # real input of either float width, independent of the configured precision
+                    x = x.real.astype(rng.choice([np.float32, np.float64]))
                 if kind == "roll":
                     s = (int(rng.integers(-7, 8)), int(rng.integers(-7, 8)))
                     got = np.asarray(fft_shift(x.copy(), np.array(s, dtype=rdt)))
                     exp = np.roll(x, s, axis=(-2, -1))
                     e = rel(got, exp)
-                    if e > tol * 10:
+                    if gt(e, tol * 10):
                         ctx.violation("whole-pixel-fft-shift-differs-from-roll", case, dict(rel_err=e, shift=list(s)))
                 else:
                     p = rng.uniform(-4, 4, size=2).astype(rdt)
                     q = rng.uniform(-4, 4, size=2).astype(rdt)
-                    a = np.asarray(fft_shift(np.asarray(fft_shift(x.copy(), p)).astype(cdt), q))
+                    a = np.asarray(fft_shift(np.asarray(fft_shift(x.copy(), p)), q))
                     b = np.asarray(fft_shift(x.copy(), (p + q).astype(rdt)))
                     e = rel(a, b)
-                    if e > tol * 20:
+                    if gt(e, tol * 20):
                         ctx.violation("fft-shifts-do-not-compose-additively", case, dict(rel_err=e))
-                ctx.count(f"{kind}")
+                ctx.count(f"{kind}:{'real' if real_in else 'complex'}")
+            elif kind == "downsample-default":
+                # Waves.downsample() with its DEFAULT max_angle='cutoff' (also 'valid' / a float angle): every Fourier coefficient
+                # of a wave that is band-limited inside the antialias aperture must survive unchanged (times the 'values' factor)
+                from abtem.waves import Waves
+                from c04 import indep_aperture
+
+                g = case.get("gpts") or [int(rng.integers(6, 33)), int(rng.integers(6, 33))]
+                g = tuple(g)
+                samp = tuple(case.get("sampling") or [0.1, 0.1])
+                inband = indep_aperture(g, samp) >= 1.0
+                X = (rng.normal(size=g) + 1j * rng.normal(size=g)) * inband
+                x = np.fft.ifft2(X).astype(cdt)
+                w = Waves(x.copy(), energy=100e3, sampling=samp)
+                if case.get("lazy"):
+                    w = w.ensure_lazy()
+                d = w.downsample(max_angle=case.get("max_angle", "cutoff"), normalization="values")
+                darr = np.asarray(d.compute().array if d.is_lazy else d.array, dtype=np.complex128)
+                new = darr.shape[-2:]
+                D = np.fft.fft2(darr)
+                fac = (new[0] * new[1]) / (g[0] * g[1])
+                lost, worst = [], 0.0
+                for i in range(g[0]):
+                    fi = i if i < (g[0] + 1) // 2 else i - g[0]
+                    for j in range(g[1]):
+                        fj = j if j < (g[1] + 1) // 2 else j - g[1]
+                        if not inband[i, j]:
+                            continue
+                        kept = (-(new[0] // 2) <= fi < (new[0] + 1) // 2) and (-(new[1] // 2) <= fj < (new[1] + 1) // 2)
+                        if not kept:
+                            lost.append((fi, fj))
+                        else:
+                            dd = abs(D[fi % new[0], fj % new[1]] - fac * X[i, j])
+                            worst = dd if gt(dd, worst) else worst
+                scale = max(float(np.abs(X).max()) * fac, 1e-30)
+                if gt(worst / scale, tol * 10):
+                    ctx.violation("downsample-default-changes-kept-inband-coefficients", case, dict(rel_err=worst / scale, gpts=list(g), new=list(new)))
+                if lost and case.get("max_angle", "cutoff") == "cutoff":
+                    # recorded class: an even axis whose cutoff grid is even keeps -c/2 … c/2-1 and drops +c/2 although it is in band
+                    pred = set()
+                    for (fi, fj) in [(a, b) for a in range(-(g[0] // 2), (g[0] + 1) // 2) for b in range(-(g[1] // 2), (g[1] + 1) // 2)]:
+                        if inband[fi % g[0], fj % g[1]] and ((new[0] % 2 == 0 and fi == new[0] // 2) or (new[1] % 2 == 0 and fj == new[1] // 2)):
+                            pred.add((fi, fj))
+                    if set(lost) == pred:
+                        ctx.violation("downsample-cutoff-drops-inband-positive-nyquist-of-even-cutoff-grid", case,
+                                      dict(gpts=list(g), new=list(new), lost=sorted(lost)[:8], n_lost=len(lost)))
+                    else:
+                        ctx.violation("downsample-cutoff-drops-inband-coefficients-beyond-recorded-class", case,
+                                      dict(gpts=list(g), new=list(new), lost=sorted(set(lost) - pred)[:8]))
+                elif lost:
+                    ctx.violation(f"downsample-{case.get('max_angle')}-drops-inband-coefficients", case, dict(gpts=list(g), new=list(new), lost=sorted(lost)[:8]))
+                ctx.count(f"downsample-default:{case.get('max_angle', 'cutoff')}:{'lazy' if case.get('lazy') else 'eager'}:{'lost' if lost else 'kept'}")
             else:  # Waves.downsample keeps the band
                 from abtem.waves import Waves
 
@@ -258,9 +333,10 @@ class C15(Property):
                     fi = i if i < (new[0] + 1) // 2 else i - new[0]
                     for j in range(new[1]):
                         fj = j if j < (new[1] + 1) // 2 else j - new[1]
-                        worst = max(worst, float(np.abs(D[..., i, j] - fac * X[..., fi % g[0], fj % g[1]]).max()))
+                        dd = float(np.abs(D[..., i, j] - fac * X[..., fi % g[0], fj % g[1]]).max())
+                        worst = dd if gt(dd, worst) else worst
                 e = worst / max(float(np.abs(X).max()) * fac, 1e-30)
-                if e > tol * 10:
+                if gt(e, tol * 10):
                     ctx.violation("downsample-changes-kept-fourier-coefficients", case, dict(rel_err=e, new=list(new), gpts=list(g)))
                 if tuple(d.gpts) != tuple(new):
                     ctx.violation("downsample-wrong-gpts", case, dict(got=list(d.gpts), new=list(new)))
@@ -271,6 +347,16 @@ class C15(Property):
             case = gen_case(ctx)
             self.safe_oracle(ctx, case)
             ctx.case(case)
+        self.selftest(ctx)
+
+    def selftest(self, ctx: Ctx):
+        import abtem.core.fft as af
+        import abtem.waves as aw
+
+        base = dict(shape=[5, 7], big=[9, 10], ens=[], seed=5, precision="float64", norm="values")
+        runs = [(k, (lambda c, k=k: self.oracle(c, dict(base, kind=k)))) for k in
+                ("roundtrip", "roundtrip-real", "mean", "intensity", "roll", "shift-add", "downsample")]
+        nan_selftest(ctx, "fft", [(af, "fft_interpolate", False), (af, "fft_shift", False), (aw, "fft_interpolate", False)], runs)
 
     def safe_oracle(self, ctx: Ctx, case):
         try:
